@@ -9,9 +9,8 @@
   Full statement (goal): `∀ ops, (ops.foldl step init).inv` for the whole mutating API, and
   `isRemoved` monotone along every history.
 
-  Status: proved for every call except `replace` (proved unless the replaced node sits between
-  two text nodes in strict mode) and `clone_node` of an element (proved under the guard
-  `cloneTopOK`); `isRemoved` monotone for every call without exception.  All preservation
+  Status: proved for every call of the forest model (`C04_step_all`, `C04_reach_all`);
+  `isRemoved` monotone for every call.  All preservation
   theorems hold for arbitrary numbers as handle arguments — no liveness hypothesis is needed,
   because a call on a handle that is not live is refused by the argument checks or is the
   identity; so "non-live arguments" are in scope, not excluded.  (What the Rust does with a
@@ -233,8 +232,8 @@ theorem C04_fresh_handle (f : Forest) (v : Value) (hi : f.Inv) :
 
 /-! ### Histories -/
 
-/-- One step: every call in `Op.core` (everything except `replace`) preserves the
-    invariant, whatever its arguments and outcome. -/
+/-- One step: every call in `Op.core` (which is every call) preserves the invariant, whatever
+    its arguments and outcome. -/
 theorem C04_step (f : Forest) (o : Op) (h : f.Inv) (hc : o.core = true) : (f.step o).Inv :=
   Forest.step_inv h o hc
 
@@ -251,6 +250,18 @@ theorem C04_reach (ops : List Op) (hc : ∀ o ∈ ops, o.core = true) : (Forest.
 theorem C04_reach_bool (ops : List Op) (hc : ∀ o ∈ ops, o.core = true) : (Forest.init.run ops).inv = true :=
   (Forest.inv_iff _).mpr (C04_reach ops hc)
 
+/-- The same without the (now vacuous) side condition. -/
+theorem C04_step_all (f : Forest) (o : Op) (h : f.Inv) : (f.step o).Inv :=
+  Forest.step_inv h o (by cases o <;> rfl)
+
+/-- Every forest reachable from the empty store by any sequence of calls of the mutating API,
+    with arbitrary arguments and whatever the calls answer, satisfies the invariant. -/
+theorem C04_reach_all (ops : List Op) : (Forest.init.run ops).Inv :=
+  C04_reach ops (fun o _ => by cases o <;> rfl)
+
+theorem C04_reach_all_bool (ops : List Op) : (Forest.init.run ops).inv = true :=
+  (Forest.inv_iff _).mpr (C04_reach_all ops)
+
 /-- Non-vacuity: a history that creates, moves, merges text, removes, and calls on a removed
     handle; evaluated. -/
 example : let ops : List Op := [.newElement 1, .newText ['x'], .newElement 2, .newText ['y'],
@@ -263,12 +274,15 @@ example : let ops : List Op := [.newElement 1, .newText ['x'], .newElement 2, .n
 
 These four take a node out *without* consolidating its former neighbours (`remove_subtree`,
 raw `detach`, indextree `remove`) and repair the text adjacency in a later step, so their
-intermediate states do not satisfy the invariant in strict mode.  `element_wrap` and
-`element_unwrap` are proved in full.  `C04_replaceStatement` and `C04_cloneNodeStatement` are NOT
-proved; proved for `replace` is the part where no such intermediate defect arises
-(`Forest.textGap = false`: in particular whenever consolidation has ever been off), for
-`clone_node` its replay loop and the non-element cases, and the handle part for all cases
-(`C04_step_le` above). -/
+intermediate states do not satisfy the invariant in strict mode, and the step lemmas of the moves
+cannot simply be chained.  All four statements are proved in full:
+`element_wrap` / `element_unwrap` by evaluating their steps on the explicit forest;
+`replace` in the gap case (`Forest.textGap = true`: the replaced node sits between two text nodes)
+by showing that `insert_after` on the state after `remove_subtree(replaced)` is, step by step, the
+same step on the valid forest followed by `remove_subtree(replaced)` — a text replacing node is
+merged into the left text and the final consolidation then is `remove(replaced)` on a valid
+forest; any other replacing node lands exactly in the hole;
+`clone_node` with the C06 lemmas for its guard. -/
 
 def C04_replaceStatement : Prop := ∀ (f : Forest) (a b : Nat), f.Inv → (f.replace a b).1.Inv
 def C04_elementWrapStatement : Prop := ∀ (f : Forest) (n name : Nat), f.Inv → (f.elementWrap n name).1.Inv
@@ -278,6 +292,17 @@ def C04_cloneNodeStatement : Prop := ∀ (f : Forest) (n : Nat), f.Inv → (f.cl
 /-- `replace` when the replaced node does not sit between two text nodes in strict mode. -/
 theorem C04_replace_partial (f : Forest) (a b : Nat) (h : f.Inv) (hg : f.textGap a = false) :
     (f.replace a b).1.Inv := Forest.replace_inv_of_noGap h a b hg
+
+/-- `replace` in the gap case: the final `remove_consolidate_text_nodes(previous, …)` repairs the
+    gap (or the replacing node fills it). -/
+theorem C04_replace_gap (f : Forest) (a b : Nat) (h : f.Inv) (hg : f.textGap a = true) :
+    (f.replace a b).1.Inv := Forest.replace_inv_of_gap h a b hg
+
+/-- `replace`: full statement. -/
+theorem C04_replace (f : Forest) (a b : Nat) (h : f.Inv) : (f.replace a b).1.Inv :=
+  Forest.replace_inv h a b
+
+theorem C04_replaceStatement_holds : C04_replaceStatement := fun f a b h => C04_replace f a b h
 
 /-- `element_wrap`: full statement (the gap case by evaluating its steps on the explicit forest). -/
 theorem C04_elementWrap (f : Forest) (node name : Nat) (h : f.Inv) : (f.elementWrap node name).1.Inv :=
@@ -327,8 +352,7 @@ theorem C04_cloneNode (f : Forest) (node : Nat) (h : f.Inv) : (f.cloneNode node)
 theorem C04_cloneNodeStatement_holds : C04_cloneNodeStatement := fun f n h => C04_cloneNode f n h
 
 /-- Non-vacuity: a strict forest with a gap (`<a>x<b/>y</a>`, `b` between two texts) and one
-    without; the unproved region is not empty and the model keeps the invariant there on these
-    instances (evaluation, not proof). -/
+    without; the gap case is not empty. -/
 def gapForest : Forest := { roots := [.node 0 (.element 1) [.node 1 (.text ['x']) [], .node 2 (.element 2) [], .node 3 (.text ['y']) []], .node 4 (.text ['z']) [], .node 5 (.element 3) []], next := 6 }
 example : gapForest.inv = true ∧ gapForest.textGap 2 = true ∧ gapForest.textGap 1 = false := by decide
 example : (gapForest.replace 2 4).1.inv = true := by decide
